@@ -6,6 +6,7 @@ import (
 
 	"fmt"
 	"os"
+	"path/filepath"
 	"strconv"
 	"verif/layerb"
 )
@@ -19,6 +20,10 @@ func main() {
 	verbose := flag.Bool("v", false, "verbose")
 	keep := flag.Bool("keep", false, "keep scratch directory (debug)")
 	flag.Parse()
+	// overlays and go list need one spelling of every path
+	if abs, err := filepath.Abs(*repo); err == nil {
+		*repo = abs
+	}
 	if t := os.Getenv("VERIF_TIER"); t != "" {
 		*tier = t
 	}
